@@ -22,7 +22,7 @@ def _pick(xs, j):
     return xs[j % len(xs)]
 
 
-def build_object(v: Dict[str, Any], j: int) -> Tuple[str, Optional[list], Optional[str]]:
+def build_object(v: Dict[str, Any], j: int, compact: bool = False) -> Tuple[str, Optional[list], Optional[str]]:
     """-> (json text, plan list or None, rationale or None) for the object-field classes of v"""
     obj: Dict[str, Any] = {}
     plan_list = None
@@ -74,7 +74,7 @@ def build_object(v: Dict[str, Any], j: int) -> Tuple[str, Optional[list], Option
     if j % 3 == 1:
         keys.reverse()
     o2 = {k: obj[k] for k in keys}
-    if j % 3 == 0:
+    if j % 3 == 0 or compact:
         text = json.dumps(o2, separators=(",", ":"), ensure_ascii=False)
     elif j % 3 == 1:
         text = json.dumps(o2, indent=2, ensure_ascii=True)
@@ -83,10 +83,10 @@ def build_object(v: Dict[str, Any], j: int) -> Tuple[str, Optional[list], Option
     return text, plan_list, rat
 
 
-def payload_text(v, j) -> Tuple[str, Optional[list], Optional[str]]:
+def payload_text(v, j, compact=False) -> Tuple[str, Optional[list], Optional[str]]:
     p = v["payload"]
     if p == "object":
-        return build_object(v, j)
+        return build_object(v, j, compact)
     if p == "array":
         return _pick(["[" + SMALL_OBJ + "]", "[]", '["plan","rationale"]'], j), None, None
     if p == "scalar":
@@ -98,8 +98,8 @@ def payload_text(v, j) -> Tuple[str, Optional[list], Optional[str]]:
     return _pick(["", "   "], j), None, None
 
 
-def assemble(v, j, pad: int = 0, outside: bool = False) -> Tuple[str, Optional[list], Optional[str]]:
-    P, plan_list, rat = payload_text(v, j)
+def assemble(v, j, pad: int = 0, outside: bool = False, compact: bool = False) -> Tuple[str, Optional[list], Optional[str]]:
+    P, plan_list, rat = payload_text(v, j, compact)
     padding = " " * pad
     if pad and not outside:
         P = (P[:1] + padding + P[1:]) if P[:1] in ("{", "[") else (P + padding)
@@ -121,7 +121,7 @@ def assemble(v, j, pad: int = 0, outside: bool = False) -> Tuple[str, Optional[l
         core = _pick(["Here is the plan:\n", "Sure! ", "PLAN "], j) + core
     elif v["prose"] == "suffix":
         core = core + _pick(["\nLet me know if you need more.", " thanks", "\n// end"], j)
-    elif j % 4 == 3 and f not in ("unterminated",):
+    elif j % 3 == 2:
         core = "\n " + core + " \n"           # surrounding whitespace only: still pure JSON / a single block
     if pad and outside:
         core = core + padding
@@ -133,18 +133,21 @@ def strings_for(v, nvar: int) -> List[Tuple[str, Optional[list], Optional[str], 
     out = []
     for j in range(nvar):
         base, plan_list, rat = assemble(v, j)
+        compact = len(base) > MAX_RAW - 8        # \u escapes / indentation blew it up: use the compact rendering
+        if compact:
+            base, plan_list, rat = assemble(v, j, compact=True)
         if len(base) > MAX_RAW:
             raise AssertionError(f"concretisation exceeds the raw limit before padding: {v} variant {j} len {len(base)}")
         if v["size"] == "le":
             if j == 0:
                 out.append((base, plan_list, rat, f"v{j}"))
             else:       # boundary: exactly MAX_RAW characters
-                t, pl, rt = assemble(v, j, pad=MAX_RAW - len(base), outside=(j % 2 == 0))
+                t, pl, rt = assemble(v, j, pad=MAX_RAW - len(base), outside=(j % 2 == 0), compact=compact)
                 assert len(t) == MAX_RAW, (len(t), v)
                 out.append((t, pl, rt, f"v{j}@{MAX_RAW}"))
         else:
             target = MAX_RAW + 1 if j != 2 else 30011
-            t, pl, rt = assemble(v, j, pad=target - len(base), outside=(j % 2 == 1))
+            t, pl, rt = assemble(v, j, pad=target - len(base), outside=(j % 2 == 1), compact=compact)
             assert len(t) == target, (len(t), v)
             out.append((t, pl, rt, f"v{j}@{target}"))
     return out
@@ -281,7 +284,7 @@ def garbage(seed: int, i: int) -> Any:
         return '{"plan":["%s"],"rationale":"%s"}' % (r.choice(["\\u0000", "\\ud800", "\\uZZZZ", "\\", "\\x41", "\\n" * 150]),
                                                    r.choice(["\\t", "\\ud83d\\ude00", "\\u00", "a\\"]))
     if fam == 11:      # BOM / whitespace flavours around a valid object
-        ws = r.choice(["﻿", " ", " ", "\x0b", "\x0c", "\x1c", "　", "\r\n", "\x00"])
+        ws = r.choice(["\ufeff", "\u00a0", "\u2003", "\x0b", "\x0c", "\x1c", "\u3000", "\r\n", "\x00"])
         return r.choice([ws + valid, valid + ws, ws + valid + ws, "```json" + ws + "\n" + valid + "\n```"])
     if fam == 12:      # very many items / long fields right at the limits
         n = r.choice([PLAN_MAX, PLAN_MAX + 1, 1000])
